@@ -11,8 +11,34 @@ def versions_for(case):
 
 
 def op_args(case):
-    c = {k: v for k, v in case.items() if k not in ("min_version",)}
-    return {"case": c}
+    if "spec" in case:
+        return {"spec": case["spec"]}
+    c = {k: v for k, v in case.items() if k not in ("min_version", "recipe")}
+    a = {"case": c}
+    if case.get("recipe"):
+        a["recipe"] = case["recipe"]
+    return a
+
+
+def versions_for_any(case):
+    if "spec" in case:
+        mv = case["spec"].get("min_version", 7)
+        return [v for v in ALL if int(v.split(".")[1]) >= mv]
+    return versions_for(case)
+
+
+def dense_strategy(tier):
+    """programs, R-ASM re-serializations of programs (redundant prefixes on jumps, permuted/padded
+    tables) and encodings of hand-built CodeData (dense jump graphs)"""
+    from hypothesis import strategies as st
+    import gen_codedata
+    from checks import c06
+    progs = strategy(tier)
+    variants = st.tuples(gen_source.programs(max_size=25, modes=("exec",), mix=(80, 0, 20)), c06.RECIPE).map(
+        lambda t: dict(t[0], recipe=t[1], _label="rasm_variant"))
+    built = gen_codedata.codedata_specs(big=False).map(lambda s: {"spec": s, "_label": "hand_built_encoding"})
+    import gen_util
+    return gen_util.weighted((6, progs), (2, variants), (2, built))
 
 
 def strategy(tier, **kw):
